@@ -94,6 +94,17 @@ CLAIMS.update({
             "findings F23/F24 recorded).", "DESIGN 4/C05", "contract-based deductive verification of the wiring (pyvc+z3); bounded model-equality contract for the dependency's dict semantics", FS_NOTE),
 })
 
+CLAIMS.update({
+    "C16": ("other", "Export/import is mostly archive and string handling outside the deductive subset: the property is decided by the bounded layer (round trips over textually colliding "
+            "universes x 6 target kinds x 8 path specs, leaf/node order checks, zip member selection); Project.clone / Job.init contracts (C04/C02) carry the 'never overwrites an existing job' and "
+            "'validates after copy' clauses. Three defects found this way were repaired (F17, F19, F25); F18 is a known finding.", "DESIGN 4/C16",
+            "bounded run-time contract checking (stand-in, labelled bounded) + the deductive contracts of the copy/init primitives it is built on", BASE_TRUST),
+    "C17": ("other", "_update_view proved with loop invariants over three symbolic work lists: every obsolete path removed, every changed link unlinked and re-created, every new link created, "
+            "nothing else touched, and an early 'up to date' exit only when all lists are empty. Tree colouring / os.walk helpers and the whole-view statements (one link per job, equals a from-scratch "
+            "build, idempotent) are bounded; F18 / F20 / F21 are known findings.", "DESIGN 4/C17",
+            "contract-based deductive verification (pyvc+z3) of _update_view; bounded contract checking of the view as a whole", BASE_TRUST),
+})
+
 NOT_YET = "not yet under contract in this round of the build (see DESIGN.md section 8 for the order); no check is registered, nothing is claimed"
 
 NA = {}
